@@ -404,17 +404,17 @@ func TestEngineStaking(t *testing.T) {
 	}
 
 	type call struct {
-		kind                   string
-		val, src, dst          int
-		amt                    *big.Int
-		act                    string
-		md, old                int
-		valid                  bool
-		rec                    int // 0 = nothing / garbage
-		fv                     int // 0 = all
-		to                     int
-		sigMode                string
-		input                  []byte
+		kind          string
+		val, src, dst int
+		amt           *big.Int
+		act           string
+		md, old       int
+		valid         bool
+		rec           int // 0 = nothing / garbage
+		fv            int // 0 = all
+		to            int
+		sigMode       string
+		input         []byte
 	}
 	// run one state-changing call on both twins and report
 	runTwin := func(caller int, cl call) {
